@@ -59,7 +59,7 @@ func init() {
 		Level:     "other",
 		Technique: "must-facts: validation precedes every state change; dispatch coverage of the record types; numeric limits as facts at the accepting exits of the validators; digit fact on the first byte before every decimal Atoi",
 		Explanation: "D1 Register/RegisterTLD reach their first effect only after splitAndCheck accepted the name, AddRecord/SetRecord only after the type-specific validator accepted the data (A: checkIPv4, AAAA: checkIPv6, CNAME: name syntax, TXT: ≤ 255) and only for these four types; the accepting exits of the name validators establish 3 ≤ len ≤ 255, fragment length 1..63 (root: ≤ 16, first byte a letter). " +
-			"D2 sign-accepting parser: every decimal std.Atoi/Atoi10 in a validator is reached only with the first byte of its argument established to be a digit. D3 first and last byte of an accepted fragment are in [a-z0-9], the inner bytes are checked by one loop over 1…len−2 whose iterations complete only for '-' or [a-z0-9]. M: the fragment validator and safeSplitAndCheck are decided in both directions: no rejecting exit is satisfiable together with every documented condition. R6: a decimal fragment is accepted only if it does not start with '0' or is one byte long (canonical-decimal); in the ':'-splitting validator the zero-filled range of the elided run and the shifted slot of a later group are adjacent (gap-alignment). R8: every storage key Register writes for a valid name fits the 64-byte key limit (no raw name component).",
+			"D2 sign-accepting parser: every decimal std.Atoi/Atoi10 in a validator is reached only with the first byte of its argument established to be a digit. D3 first and last byte of an accepted fragment are in [a-z0-9], the inner bytes are checked by one loop over 1…len−2 whose iterations complete only for '-' or [a-z0-9]. M: the fragment validator and safeSplitAndCheck are decided in both directions: no rejecting exit is satisfiable together with every documented condition. R6: a decimal fragment is accepted only if it does not start with '0' or is one byte long (canonical-decimal); in the ':'-splitting validator the zero-filled range of the elided run and the shifted slot of a later group are adjacent (gap-alignment). R8: every storage key Register writes for a valid name fits the 64-byte key limit (no raw name component). R9: a fragment is refused as 'not a byte' only outside 0 … 255.",
 		NotCovered: "that the validators accept exactly the well-formed strings (hand-written scanners over run-time strings: IPv6 groups, inner hyphens, boundary lengths) — declared not applicable to this family; of the IPv4/IPv6 scanners only the leading-zero and the gap-alignment clauses are decided.",
 		Run:        runC18,
 	})
@@ -2055,6 +2055,11 @@ func runC18(cx *CheckCtx) {
 					}
 				}
 				cx.decide(okCanon && nBack > 0, "canonical-decimal", "contracts/nns."+n, "a fragment is accepted only if it does not start with '0' or is exactly one byte long", n+" can accept a decimal fragment with a leading zero (\"00\", \"01\"): the address is not in its canonical dotted form, two spellings of one address are both stored", s.Where(w))
+			}
+			// converse at the byte range: a fault (or refusal) decided on the parsed number alone is raised only
+			// for a number outside 0 … 255 — 255 itself is an octet
+			if np, okP := panicOnlyIf(a, f, s.Val, nil, a.litLtC(s.Val, 0), -a.litLtC(s.Val, 256)); np > 0 {
+				cx.decide(okP, "limits", "contracts/nns."+n+"/octet-range", "a fragment is refused as 'not a byte' only outside 0 … 255", n+" can refuse a fragment whose value is inside 0 … 255 as not being a byte (the bound is off by one): valid addresses containing that octet cannot be recorded", s.Where(w))
 			}
 			cx.decide(ok, "sign-accepting-parser", "contracts/nns."+n, "the first byte of the parsed fragment is established to be a digit", "std.Atoi accepts a leading sign: "+n+" parses "+arg.pretty()+" without establishing that its first byte is a digit, so \"+1.2.3.4\" is accepted as a canonical address", s.Where(w))
 		}
